@@ -52,7 +52,7 @@ func stringOperand(operand interface{}) string {
 	case int64:
 		_operand = strconv.FormatInt(operand, 10)
 	case float64:
-		_operand = strconv.FormatFloat(operand, 'g', 6, 64)
+		_operand = strconv.FormatFloat(operand, 'f', -1, 64)
 	case bool:
 		_operand = strconv.FormatBool(operand)
 	case nil:
